@@ -1,5 +1,5 @@
 SPECIFICATION Spec
 CONSTANT Depth = 3
-CONSTANT Kinds = {"tcp", "ip4", "ip6", "icmp6", "dhcp", "dhcp6", "dot11", "pppoe", "rtp", "llc", "mld2"}
+CONSTANT Kinds = {"tcp", "ip4", "ip6", "icmp6", "dhcp", "dhcp1", "dhcp6", "dot11", "pppoe", "rtp", "llc", "mld2"}
 CONSTRAINT Emit
 CHECK_DEADLOCK FALSE
